@@ -309,14 +309,14 @@ pub fn run(rep: &Report) {
         check_program(&p, l)
     });
     // (c) generated programs
-    let n_prog = rep.tier.pick(60_000u64, 1_500_000);
+    let n_prog = rep.tier.pick(150_000u64, 2_000_000);
     let depth = rep.tier.pick(5u32, 9);
     common::random_search(rep, "programs", 100, n_prog, &move || programs::arb_program(depth), &|p: &Program, l| {
         l.sample(3, || json!({"family": p.family, "src": vcore::clip(&p.src, 120), "ctx": p.ctx.describe()}));
         check_program(p, l)
     });
     // long programs close to the 4096-character bound
-    let n_long = rep.tier.pick(600u64, 20_000);
+    let n_long = rep.tier.pick(1_000u64, 20_000);
     common::random_search(
         rep,
         "long-programs",
